@@ -4,7 +4,7 @@ From Coq Require Import String.
 From Coq Require Import List Ascii ZArith Bool Lia.
 From CGV Require Import Base.PyBase Base.PyVal Base.NxGraph Resolve.Bonding Resolve.GraphOps Resolve.Pipeline
      Resolve.MapDefs Resolve.Witness Resolve.MapProofs Resolve.CopyProofs Resolve.PipelineFull Resolve.FragidProofs Resolve.EdgeCopy Resolve.EdgeCopyGen.
-From CGV Require Hydro.SquashDefs Hydro.SquashProofs Compose.GraphAdj.
+From CGV Require Hydro.SquashDefs Hydro.SquashProofs Compose.GraphAdj Compose.GraphFacts.
 From CGV Require Import Compose.CutModel Compose.ComposeFlat Compose.CutSpecCheck Compose.LevelsExamples.
 Import ListNotations.
 Open Scope Z_scope.
@@ -146,6 +146,12 @@ Theorem C02_disconnected_edges_copy : forall fd meta mol fgs, tmpl_dict fd -> re
                             node_get mol (cf (nk n)) (S "mapping") = Some (mapping_val name (nk n))) /\
     (forall a b, In a (node_keys frag) -> In b (node_keys frag) -> edge_attrs mol (cf a) (cf b) = tmpl_edge frag a b).
 Proof. exact disconnected_edges_copy. Qed.
+(** the bonding stage touches only the pairs it bonds: every other edge (in particular a template edge whose two atoms are not
+    bonded to each other again) comes out of edges_from_bonding_descrpt with the attribute dict it went in with *)
+Theorem C02_bonding_keeps_edges : forall legacy aa meta mol fgs mol' fgs', bonding_step legacy aa meta mol fgs = Ok (mol', fgs') ->
+  exists s1 bonds, bonds_of legacy meta mol fgs = Ok (s1, bonds) /\
+    forall x y, (forall b, In b bonds -> GraphFacts.upair x y (b_u b) (b_v b) = false) -> edge_attrs mol' x y = edge_attrs mol x y.
+Proof. exact bonding_keeps_edges. Qed.
 (** non-vacuity: the witness dictionary satisfies tmpl_dict and the loop returns on {[#V].[#A][#B]} *)
 Example C02_disconnected_edges_copy_nonvacuous :
   tmpl_dict fd_AB /\ match resolve_disconnected fd_AB base_VAB with Ok (mol, _) => Nat.eqb (length mol) 3 | Err _ => false end = true.
@@ -185,6 +191,7 @@ Print Assumptions C02_step_edges_copy.
 Print Assumptions C02_merge_edges_copy.
 Print Assumptions C02_disc_step_edges.
 Print Assumptions C02_disconnected_edges_copy.
+Print Assumptions C02_bonding_keeps_edges.
 Print Assumptions C02_frag_exact.
 Print Assumptions C02_frag_cover.
 Print Assumptions C02_fragid_singleton.
